@@ -145,6 +145,16 @@ func sameValue(a, b ssa.Value) bool {
 	if oka && okb && fa == fb {
 		return sameValue(ba, bb) || ba == bb
 	}
+	// loads of the same element x[i] with identical base and index
+	if ua, ok := a.(*ssa.UnOp); ok {
+		if ub, ok := b.(*ssa.UnOp); ok {
+			ia, ok1 := ua.X.(*ssa.IndexAddr)
+			ib, ok2 := ub.X.(*ssa.IndexAddr)
+			if ok1 && ok2 && sameValue(ia.X, ib.X) && sameValue(ia.Index, ib.Index) {
+				return true
+			}
+		}
+	}
 	// slices of the same alloc (temp[:])
 	sa, ok1 := a.(*ssa.Slice)
 	sb, ok2 := b.(*ssa.Slice)
